@@ -65,6 +65,7 @@ var c16Recorders = map[string]func(t *testing.T, rec *ev.Rec, u c16Universe, ste
 			}
 		}
 		r.run(steps - steps/2)
+		r.esmPhase(cu.cdpApps[u.Variant%len(cu.cdpApps)])
 		// make sure the tape ends on a block boundary so that the last app hash covers everything
 		r.block(6 * time.Second)
 		r.block(6 * time.Second)
